@@ -389,6 +389,15 @@ func (b *Builder) Mul(x, y *Term) *Term {
 	if x.IsConst() || (!y.IsConst() && x.ID > y.ID) {
 		x, y = y, x
 	}
+	// multiplication by a 0/1 value is a selection
+	if !y.IsConst() && w > 1 {
+		if b.Maybe(y).Cmp(bigOne) <= 0 {
+			return b.Ite(b.Eq(b.Extract(y, 0, 0), b.ConstU(1, 1)), x, b.ConstU(w, 0))
+		}
+		if b.Maybe(x).Cmp(bigOne) <= 0 {
+			return b.Ite(b.Eq(b.Extract(x, 0, 0), b.ConstU(1, 1)), y, b.ConstU(w, 0))
+		}
+	}
 	return b.mk(OMul, x.S, nil, 0, 0, "", x, y)
 }
 
